@@ -65,10 +65,26 @@ fn main() {
                     }
                 }
             }
-            "glob" => misc::glob_case(&sc),
-            "regex" => misc::regex_case(&sc),
-            "model" => misc::model_case(&sc),
-            "timeout" => misc::timeout_case(&sc),
+            "glob" | "regex" | "model" | "timeout" => {
+                let sc2 = sc.clone();
+                let cmd2 = cmd.to_string();
+                std::panic::catch_unwind(move || match cmd2.as_str() {
+                    "glob" => misc::glob_case(&sc2),
+                    "regex" => misc::regex_case(&sc2),
+                    "model" => misc::model_case(&sc2),
+                    _ => misc::timeout_case(&sc2),
+                })
+                .unwrap_or_else(|p| {
+                    let msg = if let Some(s) = p.downcast_ref::<String>() {
+                        s.clone()
+                    } else if let Some(s) = p.downcast_ref::<&str>() {
+                        s.to_string()
+                    } else {
+                        "panic".to_string()
+                    };
+                    json!({"panic": msg})
+                })
+            }
             _ => {
                 eprintln!("unknown command {cmd}");
                 std::process::exit(2);
